@@ -25,6 +25,7 @@ type C15Case struct {
 	P    uint    `json:"p"`
 	M    uint8   `json:"m"`
 	Z    *h.Spec `json:"z,omitempty"`
+	DK   string  `json:"dk,omitempty"` // Float: what the destination held before ("", "+inf", "-inf", "big", "tiny")
 }
 
 func (c C15Case) bigFloat() *big.Float {
@@ -170,6 +171,30 @@ func genC15(t *rapid.T) (c C15Case) {
 		if smallExact && c.P > 12 {
 			c.P = uint(rapid.IntRange(1, 12).Draw(t, "psm"))
 		}
+		if c.FK == "" && rapid.IntRange(0, 4).Draw(t, "shortdec") == 0 {
+			// short decimals d x 10^v held exactly by the big.Float: the mantissa carries 5^v, the binary
+			// exponent is large and positive, yet the expansion has only len(d) digits and must be stored
+			// exactly by every receiver of at least that precision
+			d := h.GenDigits(t, "sd", 40)
+			v := rapid.IntRange(0, 400).Draw(t, "sv")
+			if rapid.Bool().Draw(t, "svsmall") {
+				v = rapid.IntRange(20, 120).Draw(t, "svs")
+			}
+			m := bigOf(d)
+			m.Mul(m, new(big.Int).Exp(big.NewInt(5), big.NewInt(int64(v)), nil))
+			c.FP = uint(m.BitLen() + rapid.IntRange(0, 70).Draw(t, "sfp"))
+			if rapid.Bool().Draw(t, "fneg2") {
+				m.Neg(m)
+			}
+			c.FM, c.FE = m.String(), v
+			c.P = uint(len(d) + rapid.IntRange(-2, 3).Draw(t, "sp"))
+			if len(d) < 3 && rapid.Bool().Draw(t, "sp1") {
+				c.P = uint(len(d))
+			}
+			if c.P < 1 || c.P > 1<<20 {
+				c.P = 1
+			}
+		}
 		c.Z = genRecvPrev(t, c.P, c.M)
 	case "float64", "float32":
 		switch rapid.IntRange(0, 5).Draw(t, "xk") {
@@ -240,6 +265,7 @@ func genC15(t *rapid.T) (c C15Case) {
 			}
 		}
 		c.FP = uint(rapid.SampledFrom([]int{0, 0, 1, 24, 53, 64, 113, 300, 2000}).Draw(t, "fp"))
+		c.DK = rapid.SampledFrom([]string{"", "", "+inf", "-inf", "big", "tiny"}).Draw(t, "dk")
 	}
 	return c
 }
@@ -368,6 +394,9 @@ func checkC15(c C15Case, o *h.Obs) *h.Fail {
 		if math.Signbit(gf) != xv.Neg {
 			return h.Failf("sign", "%s(%v) = %v", c.Op, xv, gf)
 		}
+		if f := floatModeIndependent(c); f != nil {
+			return f
+		}
 		if xv.Form != model.Finite || xv.Exp > 400 || xv.Exp < -400 {
 			return nil
 		}
@@ -424,6 +453,9 @@ func checkC15(c C15Case, o *h.Obs) *h.Fail {
 		}
 		if math.Signbit(gf) != xv.Neg {
 			return h.Failf("sign", "%s(%v) = %v", c.Op, xv, gf)
+		}
+		if f := floatModeIndependent(c); f != nil {
+			return f
 		}
 		switch xv.Form {
 		case model.Zero:
@@ -503,8 +535,27 @@ func checkC15(c C15Case, o *h.Obs) *h.Fail {
 		x := c.X.Build()
 		xv := c.X.Val()
 		var dst *big.Float
-		if c.FP > 0 {
-			dst = new(big.Float).SetPrec(c.FP).SetInt64(-3)
+		if c.FP > 0 || c.DK == "+inf" || c.DK == "-inf" {
+			// the destination's previous contents (of any kind) must not show through; a destination of
+			// precision 0 takes the default precision
+			dst = new(big.Float).SetPrec(c.FP)
+			switch c.DK {
+			case "":
+				dst.SetInt64(-3)
+			case "+inf":
+				dst.SetInf(false)
+			case "-inf":
+				dst.SetInf(true)
+			case "big":
+				if c.FP > 0 {
+					dst.SetMantExp(new(big.Float).SetPrec(c.FP).SetFloat64(-1.75), 1<<30) // (SetMantExp copies the mantissa's precision)
+				}
+			case "tiny":
+				if c.FP > 0 {
+					dst.SetMantExp(new(big.Float).SetPrec(c.FP).SetFloat64(1.25), -(1 << 30))
+				}
+			}
+			o.Label("float-dst:" + c.DK)
 		}
 		f := x.Float(dst)
 		if f == nil || dst != nil && f != dst {
@@ -530,6 +581,14 @@ func checkC15(c C15Case, o *h.Obs) *h.Fail {
 		}
 		o.NonTrivial()
 		prec := f.Prec()
+		bitsF := float64(c.X.P) * (math.Ln10 / math.Ln2)
+		wantp := uint(math.Max(math.Ceil(bitsF), 64))
+		if fr := bitsF - math.Floor(bitsF); c.FP == 0 && (fr < 1e-5 || fr > 1-1e-5) && (prec == wantp+1 || prec == wantp-1) {
+			wantp = prec // the product is too close to an integer for float64 arithmetic to decide the ceiling
+		}
+		if c.FP > 0 && prec != c.FP || c.FP == 0 && prec != wantp {
+			return h.Failf("attrs", "Float(%v) (precision %d) into a destination of precision %d: result precision %d (documented max(ceil(x.Prec()*log2(10)), 64) = %d)", xv, c.X.P, c.FP, prec, wantp)
+		}
 		r := model.ToRat(xv)
 		fr, _ := f.Rat(nil)
 		diff := new(big.Rat).Sub(fr, r)
@@ -549,6 +608,29 @@ func checkC15(c C15Case, o *h.Obs) *h.Fail {
 		return nil
 	}
 	return h.Failf("bad-case", "op %q", c.Op)
+}
+
+// floatModeIndependent: Float64/Float32 are functions of x's value ("the value nearest to x"): the rounding mode
+// x carries for its own arithmetic must not change what they return. Holds inside the known-finding zone too.
+func floatModeIndependent(c C15Case) *h.Fail {
+	var bits [6]uint64
+	var accs [6]decimal.Accuracy
+	for m := uint8(0); m < 6; m++ {
+		s := c.X
+		s.M = m
+		x := s.Build()
+		if c.Op[:7] == "float64" {
+			f, a := x.Float64()
+			bits[m], accs[m] = math.Float64bits(f), a
+		} else {
+			f, a := x.Float32()
+			bits[m], accs[m] = uint64(math.Float32bits(f)), a
+		}
+		if bits[m] != bits[0] || accs[m] != accs[0] {
+			return h.Failf("mode-dependent", "%s(%v) returns (%#x, %v) when x's mode is %v but (%#x, %v) when it is %v", c.Op[:7], c.X.Val(), bits[0], accs[0], model.Mode(0), bits[m], accs[m], model.Mode(m))
+		}
+	}
+	return nil
 }
 
 // checkSetFloatExtreme: x = m*2^e with e near +-2^31. The exact decimal expansion is out of reach (hundreds of
@@ -635,63 +717,57 @@ func checkSetFloatExtreme(c C15Case, o *h.Obs, z *decimal.Decimal) *h.Fail {
 
 const ruleC15 = "rapid-generated cases. SetFloat64: float64 bit patterns (uniform bits, subnormals, extremes, powers of two, small integers and dyadic fractions, NaN payloads, +-Inf, +-0) x receiver precision {0, 1-6, 15-19, 1-120, 700-800 (holds every expansion)} x modes x previous receiver contents: sign kept, +-0/+-Inf mapped to themselves, NaN => ErrNaN, exact when the expansion fits, else within 1 ulp of the correctly rounded value. SetFloat: big.Float of precision 1..2000 bits, exponents to +-3000 (quick) / +-30000 (thorough), +-0, +-Inf: same, tolerance 64 ulp. SetFloat at the ends of big.Float's own exponent range (binary exponent within 400 of +-2^31, mantissas with the top and often the lowest bit set, precisions around 64): the stored value must be finite, of the right sign, and within 64 units of the binary value when both are scaled into the ordinary range with 600-bit arithmetic. Float64/Float32: Decimals exactly halfway between two adjacent floats and halfway +- 10^-k (built from the float), exact expansions of floats (must come back bit for bit), values around MaxFloat / SmallestNonzero / the smallest normal, generic values with exponents inside and far outside the range: the returned bits must equal big.Rat.Float64/Float32 of the exact rational (correctly rounded, ties to even), accuracy == sign(returned - x), saturation to +-Inf / +-0; in the two razor zones where 'nearest' and the documented saturation rule disagree ((Max, Max+half ulp) and (Smallest/2, Smallest)) both answers are accepted and counted. While the known finding F-10 (double rounding) is listed, float64/float32 cases whose value lies within 2^-6 / 2^-3 ulp of a float or of a midpoint are excluded by an input predicate and counted, and the same inputs are also run under a weaker oracle that holds there too (float64f/float32f: the result is one of the two floats enclosing x, sign preserved). Float: within 64 binary ulps at the destination's precision, sign and specials preserved, |exp| <= 5000. Non-trivial = inexact conversion, halfway-adjacent input, subnormal or saturating result."
 
-// floatNearBoundary: x lies close to (but not on) a float or close to the midpoint
-// between two adjacent floats, within 32 units of the intermediate 64/32-bit
-// big.Float that Float64/Float32 round through first (known finding F-10).
-func floatNearBoundary(c C15Case) bool {
+// floatNearMidpoint: x lies within 2^-6 (Float64) / 2^-3 (Float32) of the gap between two adjacent floats from
+// their midpoint: the zone where rounding through the intermediate 64/32-bit big.Float first (itself off by a few
+// units, Float being naive) can pick the other neighbour (known finding F-10). The returned accuracy is checked
+// everywhere else, including for x that are floats or next to one.
+func floatNearMidpoint(c C15Case) bool {
 	if c.Op != "float64" && c.Op != "float32" || c.X.F != "f" || c.X.E > 400 || c.X.E < -400 {
 		return false
 	}
 	r := model.ToRat(c.X.Val())
 	r.Abs(r)
-	var f float64
-	var ulpExp, zoneBits int
+	var f, up, down float64
+	zoneBits := 6
 	if c.Op == "float64" {
 		f, _ = r.Float64()
-		_, e := math.Frexp(f)
-		ulpExp = e - 53
-		if ulpExp < -1074 {
-			ulpExp = -1074
-		}
-		zoneBits = 6
+		up, down = math.Nextafter(f, math.Inf(1)), math.Nextafter(f, 0)
 	} else {
 		f32, _ := r.Float32()
-		f = float64(f32)
-		_, e := math.Frexp(f)
-		ulpExp = e - 24
-		if ulpExp < -149 {
-			ulpExp = -149
-		}
+		f, up, down = float64(f32), float64(math.Nextafter32(f32, float32(math.Inf(1)))), float64(math.Nextafter32(f32, 0))
 		zoneBits = 3
 	}
 	if math.IsInf(f, 0) {
 		return false
 	}
-	if f == 0 {
-		return true // below half of the smallest subnormal: handled by the razor-zone rule only
+	fr := new(big.Rat).SetFloat64(f)
+	near := func(a, b float64) bool { // is r within zone*(b-a) of (a+b)/2 ?
+		ar, br := new(big.Rat).SetFloat64(a), new(big.Rat).SetFloat64(b)
+		gap := new(big.Rat).Sub(br, ar)
+		mid := new(big.Rat).Add(ar, br)
+		mid.Quo(mid, big.NewRat(2, 1))
+		d := new(big.Rat).Sub(r, mid)
+		d.Abs(d)
+		d.Quo(d, gap)
+		return d.Cmp(new(big.Rat).SetFrac(big.NewInt(1), new(big.Int).Lsh(big.NewInt(1), uint(zoneBits)))) < 0
 	}
-	d := new(big.Rat).Sub(r, new(big.Rat).SetFloat64(f))
-	d.Abs(d)
-	if d.Sign() == 0 {
-		return true // exactly representable but long expansions come back with a wrong accuracy (same root cause)
-	}
-	// in units of one ulp of f
-	two := func(e int) *big.Rat {
-		if e >= 0 {
-			return new(big.Rat).SetInt(new(big.Int).Lsh(big.NewInt(1), uint(e)))
+	if math.IsInf(up, 0) {
+		// above the largest finite float: the midpoint to the (virtual) next binade
+		gap := new(big.Rat).Sub(fr, new(big.Rat).SetFloat64(down))
+		mid := new(big.Rat).Add(fr, new(big.Rat).Quo(gap, big.NewRat(2, 1)))
+		d := new(big.Rat).Sub(r, mid)
+		d.Abs(d)
+		d.Quo(d, gap)
+		if d.Cmp(new(big.Rat).SetFrac(big.NewInt(1), new(big.Int).Lsh(big.NewInt(1), uint(zoneBits)))) < 0 {
+			return true
 		}
-		return new(big.Rat).SetFrac(big.NewInt(1), new(big.Int).Lsh(big.NewInt(1), uint(-e)))
-	}
-	d.Quo(d, two(ulpExp))
-	zone := two(-zoneBits)
-	if d.Cmp(zone) < 0 {
+	} else if near(f, up) {
 		return true
 	}
-	half := big.NewRat(1, 2)
-	return new(big.Rat).Sub(half, d).Cmp(zone) < 0
+	return f != 0 && near(down, f)
 }
 
-var propC15 = &h.Prop[C15Case]{ID: "C15", Rule: ruleC15, Gen: genC15, Check: checkC15, Matchers: map[string]func(C15Case) bool{"float-near-rounding-boundary": floatNearBoundary}}
+var propC15 = &h.Prop[C15Case]{ID: "C15", Rule: ruleC15, Gen: genC15, Check: checkC15, Matchers: map[string]func(C15Case) bool{"float-near-rounding-boundary": floatNearMidpoint}}
 
 func TestC15(t *testing.T)       { propC15.Search(t) }
 func TestC15Replay(t *testing.T) { propC15.Replay(t) }
